@@ -635,9 +635,34 @@ class Body:
                 if unwind and isinstance(t.get('unwind'), int):
                     dq.append((t['unwind'], 0))
                 continue
-            for d in self.succ(bb, unwind):
+            succs = self.succ(bb, unwind)
+            if t['k'] == 'switch' and 'folded' not in t:
+                # drop-flag switch (drop elaboration): `switch flag { 0 => skip, _ => drop(g) }`.
+                # While g is held its flag is set, so only the drop edge is feasible.
+                fl = op_bare_local(t['discr'])
+                if fl is not None and self._is_drop_flag(fl):
+                    dr = [d for d in succs if self.blocks[d]['term']['k'] == 'drop'
+                          and self.blocks[d]['term']['place']['l'] == g and not self.blocks[d]['term']['place']['p']
+                          and not [s for s in self.blocks[d]['stmts'] if s['k'] == 'assign']]
+                    if dr:
+                        succs = dr
+            for d in succs:
                 dq.append((d, 0))
         return inside
+
+    def _is_drop_flag(self, l):
+        if self.locals[l]['ty'] != 'bool':
+            return False
+        defs = self.defs_of(l)
+        if not defs:
+            return False
+        for d in defs:
+            if d[0] != 'stmt':
+                return False
+            rv = d[3]['rv']
+            if not (rv['k'] == 'use' and rv['op']['k'] == 'const'):
+                return False
+        return True
 
     # ---- pretty printing ---------------------------------------------------
     def dump(self):
